@@ -101,7 +101,7 @@ func (g *c20gen) expr(d int) gen.Expr {
 			return &gen.EName{Name: "v" + g.u()}
 		}
 	}
-	switch r.Intn(9) {
+	switch r.Intn(10) {
 	case 0:
 		ops := []string{"+", "-", "*", "~", "==", "and", "or", "in", "<"}
 		return &gen.EBin{Op: ops[r.Intn(len(ops))], L: g.expr(d - 1), R: g.expr(d - 1)}
@@ -119,6 +119,12 @@ func (g *c20gen) expr(d int) gen.Expr {
 		return &gen.EGroup{X: g.expr(d - 1)}
 	case 7:
 		return &gen.EAttr{X: &gen.EName{Name: "v" + g.u()}, Key: g.expr(0), Dot: false}
+	case 8:
+		if r.Intn(2) == 0 {
+			// an interpolated string that spans lines, before and after the interpolation
+			return &gen.EInterp{Parts: []gen.Expr{&gen.EStr{S: "i" + g.u() + []string{"", "\nnl "}[r.Intn(2)]}, &gen.EName{Name: "v" + g.u()}, &gen.EStr{S: []string{"", "\ntail", " t"}[r.Intn(3)]}}}
+		}
+		return g.expr(0)
 	default:
 		return g.expr(0)
 	}
@@ -203,6 +209,12 @@ func (p *c20) posTemplate(i int) *gen.Template {
 	if i%5 == 0 {
 		body = append(body, &gen.NExtends{Tpl: &gen.EStr{S: "parent" + g.u()}}, &gen.NUse{Tpl: &gen.EStr{S: "u" + g.u()}, Aliases: [][2]string{{"a", "b"}}})
 	}
+	if i%5 != 0 && i%3 == 0 {
+		// the very first bytes of the source are text like any other: a byte order mark, a NUL, a lone CR
+		lead := []string{"\xef\xbb\xbf", "\xef\xbb\xbf\xef\xbb\xbf", "\x00", "\r", "\xc2\xa0", "\xe2\x80\x8b"}[g.r.Intn(6)]
+		id := lead + "L" + g.u()
+		body = append(body, &gen.NText{S: id + ";", ID: id}, &gen.NComment{S: " c "}, &gen.NPrint{X: &gen.EName{Name: "v" + g.u()}})
+	}
 	body = append(body, g.nodes(1+g.r.Intn(3), 2+g.r.Intn(5))...)
 	return &gen.Template{Name: "main", Body: body}
 }
@@ -234,7 +246,7 @@ func (p *c20) Init(tier string, seed int64) {
 		p.injOffs = append(p.injOffs, p.nInj)
 		// per unit: '@' at every boundary, '987654' before every closing delimiter (counted as all boundaries, skipped when not applicable),
 		// and an unknown tag at every statement position
-		p.nInj += rec.n*2 + 40
+		p.nInj += rec.n*3 + 40
 	}
 	// truncation sources: the units (canonical) and generated position templates
 	for k := range p.units {
@@ -283,12 +295,32 @@ type injPolicy struct {
 	tok       string
 	closeOnly bool
 	done      bool
+	// depthZeroOnly: inject only where no bracket is open (the injected token is then the first offender)
+	depthZeroOnly bool
+	depth         int
+	written       int // bytes spelled so far are not known to the policy: off is computed from the marker
+	off           int
 }
 
 func (v *injPolicy) WS(prev, next string, mayBeEmpty bool) string {
 	i := v.n
 	v.n++
 	base := gen.Canon{}.WS(prev, next, mayBeEmpty)
+	switch prev {
+	case "(", "[", "{", "#{":
+		v.depth++
+	case ")", "]", "}":
+		v.depth--
+	case "{{", "{%", "{{-", "{%-":
+		v.depth = 0
+	}
+	if i == v.at && v.depthZeroOnly {
+		if v.depth != 0 || prev == "\"" || next == "\"" {
+			return base
+		}
+		v.done = true
+		return " \x01" + v.tok + " "
+	}
 	if i == v.at {
 		isClose := next == "}}" || next == "%}" || next == "-}}" || next == "-%}"
 		if v.closeOnly && !isClose {
@@ -324,7 +356,17 @@ func (p *c20) injected(u c20unit, j int) (src, what string, off int) {
 			return src, "", -1
 		}
 		return src, fmt.Sprintf("surplus literal before the closing delimiter at boundary %d", j-B), strings.Index(src, "987654")
+	case j < 3*B:
+		pol := &injPolicy{at: j - 2*B, tok: []string{")", "]"}[j%2], depthZeroOnly: true}
+		src, _ = gen.Source(&gen.Template{Body: u.nodes()}, pol)
+		pol.off = strings.Index(src, "\x01")
+		src = strings.Replace(src, "\x01", "", 1)
+		if !pol.done || lexicalEndTagBroken(src) {
+			return src, "", -1
+		}
+		return src, fmt.Sprintf("stray closing bracket outside any bracket at token boundary %d", j-2*B), pol.off
 	}
+	j -= B
 	// unknown tag at the (j-2B)-th statement position of the structure tree
 	k := j - 2*B
 	body, ok := insertAt(u.nodes(), &k, []gen.Node{&gen.NRaw{S: "{% zork %}"}})
@@ -692,7 +734,7 @@ func (p *c20) runNamed(res *fw.Result, j int) {
 }
 
 func (p *c20) Rule() string {
-	return "four workloads. (a) positions: seeded templates in which every name, number, string and text run is unique, spelled with line breaks everywhere (LF, CRLF, blank lines inside tags; newlines inside text, strings, comments, verbatim bodies; trim markers; both quote kinds); every TextNode, PrintNode, tag node (if/elseif, for, set, block, filter, macro, embed and its blocks, include, import, from, use, do, extends), NameExpr, NumberExpr and StringExpr of the parsed tree must report the (1-based line, 0-based byte column) of its anchor as recorded by the speller (unique content is looked up directly, tag nodes must sit on an anchor of their kind; a string may report its quote or its first content byte). (b) truncation: EVERY byte offset of every injection template and of generated templates: when a reference scanner says the cut is inside a delimiter pair or an open if/for/block/set/filter/macro/embed/verbatim body, parsing the prefix must fail. (c) injection: for each of the 41 tag/expression templates at 3 placements: an illegal character '@' at EVERY token boundary, a surplus literal before EVERY closing delimiter, an unknown tag at EVERY statement position; the source must be rejected with the error located exactly at the injected token. (d) a broken template (8 kinds of error, 5 names) loaded directly and through include, extends, import, embed, use, from and a nested include in a loop: the error must identify the template by name. Non-trivial (positions) = an anchor on a line >1; the enumerated workloads are distinct by construction."
+	return "four workloads. (a) positions: seeded templates in which every name, number, string and text run is unique, spelled with line breaks everywhere (LF, CRLF, blank lines inside tags; newlines inside text, strings, interpolated strings (before and after the interpolation), comments, verbatim bodies; trim markers; both quote kinds; a third of the templates start with a byte order mark, two of them, a NUL, a lone CR, NBSP or a zero-width space as ordinary text); every TextNode, PrintNode, tag node (if/elseif, for, set, block, filter, macro, embed and its blocks, include, import, from, use, do, extends), NameExpr, NumberExpr and StringExpr of the parsed tree must report the (1-based line, 0-based byte column) of its anchor as recorded by the speller (unique content is looked up directly, tag nodes must sit on an anchor of their kind; a string may report its quote or its first content byte). (b) truncation: EVERY byte offset of every injection template and of generated templates: when a reference scanner says the cut is inside a delimiter pair or an open if/for/block/set/filter/macro/embed/verbatim body, parsing the prefix must fail. (c) injection: for each of the 41 tag/expression templates at 3 placements: an illegal character '@' at EVERY token boundary, a surplus literal before EVERY closing delimiter, a stray ')' or ']' at EVERY token boundary where no bracket is open, an unknown tag at EVERY statement position; the source must be rejected with the error located exactly at the injected token. (d) a broken template (8 kinds of error, 5 names) loaded directly and through include, extends, import, embed, use, from and a nested include in a loop: the error must identify the template by name. Non-trivial (positions) = an anchor on a line >1; the enumerated workloads are distinct by construction."
 }
 
 func (p *c20) Assumptions() []string {
